@@ -65,3 +65,34 @@ Qed.
 Theorem failed_step_unchanged_proof tsize cfg mcl ll extra :
   fst (compact_step tsize true cfg mcl ll extra) = add_l0 extra ll.
 Proof. unfold compact_step. destruct (compact tsize cfg mcl ll) as [[cs|] m]; reflexivity. Qed.
+
+(* ---------- table file numbers ---------- *)
+
+Lemma tw_names_range k : forall c x, In x (tw_names c k) -> c <= x < c + N.of_nat k.
+Proof.
+  induction k as [|k IH]; intros c x H; [destruct H|]. cbn [tw_names] in H. destruct H as [<-|H]; [lia|].
+  apply IH in H. lia.
+Qed.
+Lemma tw_names_nodup k : forall c, NoDup (tw_names c k).
+Proof.
+  induction k as [|k IH]; intros c; [constructor|]. cbn [tw_names]. constructor; [|apply IH].
+  intros H. apply tw_names_range in H. lia.
+Qed.
+
+Lemma nodup_app {A} (a b : list A) : NoDup a -> NoDup b -> (forall x, In x a -> In x b -> False) -> NoDup (a ++ b).
+Proof.
+  induction a as [|x a IH]; intros Ha Hb H; [exact Hb|]. cbn. inversion Ha as [|? ? Hx Ha']; subst. constructor.
+  - intros Hin. apply in_app_or in Hin as [Hin|Hin]; [contradiction|]. apply (H x); [left; reflexivity|exact Hin].
+  - apply IH; auto. intros y Hy Hy'. apply (H y); [right; exact Hy|exact Hy'].
+Qed.
+
+Theorem table_names_unique_proof cfg acts : forall st ctr,
+  NoDup (run_names cfg st ctr acts) /\ forall x, In x (run_names cfg st ctr acts) -> ctr <= x.
+Proof.
+  induction acts as [|a acts IH]; intros st ctr; cbn [run_names]; [split; [constructor|intros x []]|].
+  destruct (step cfg st a) as [[st' o]|]; [|split; [constructor|intros x []]].
+  destruct (IH st' (ctr + N.of_nat (writes_of cfg st a))) as [H1 H2]. split.
+  - apply nodup_app; [apply tw_names_nodup|exact H1|].
+    intros x Hx Hx'. apply tw_names_range in Hx. apply H2 in Hx'. lia.
+  - intros x Hx. apply in_app_or in Hx as [Hx|Hx]; [apply tw_names_range in Hx; lia|apply H2 in Hx; lia].
+Qed.
